@@ -1,6 +1,7 @@
 package c07
 
 import (
+	"bufio"
 	"errors"
 	"fmt"
 	"io"
@@ -36,6 +37,12 @@ type parserCfg struct {
 	FaultAt    int    `json:",omitempty"`
 	FaultKind  int    `json:",omitempty"`
 	ByteReader bool   `json:",omitempty"` // the faulty top-level reader implements io.ByteReader
+	// Round 10: how the failure is delivered (all zero = the reader of the earlier rounds: it
+	// delivers as much as fits per call and keeps failing once it has failed).
+	FaultOnce  bool `json:",omitempty"` // the reader fails once and goes on with the text afterwards (EAGAIN, a timeout, an error that is reported once)
+	FaultChunk int  `json:",omitempty"` // a Read call delivers at most this many octets (0 = as many as fit)
+	FaultWith  int  `json:",omitempty"` // the failing Read call delivers up to this many octets (those in front of FaultAt) together with the error
+	Bufio      int  `json:",omitempty"` // > 0: the top-level reader is handed in as a *bufio.Reader of this size
 
 	// GenBytes (optional): octets of text that the $GENERATE directives of the input expand to
 	// (steps x length of the template); they count as input for the allocation bound.
@@ -74,19 +81,53 @@ func faultErr(kind int) error {
 	return errSentinel
 }
 
-// faultReader delivers data[:at] and then fails.
+// faultReader delivers data[:at] and then fails. With once it fails one time only: the next call
+// goes on with data[at:] and the input ends in io.EOF as if nothing had happened. chunk limits what
+// one Read call delivers; with is the number of octets (the last ones in front of at) that the
+// failing call delivers together with its error, as io.Reader permits.
 type faultReader struct {
-	data []byte
-	at   int
-	pos  int
-	err  error
+	data  []byte
+	at    int
+	pos   int
+	err   error
+	once  bool
+	chunk int
+	with  int
+	fired bool
 }
 
 func (r *faultReader) Read(p []byte) (int, error) {
-	if r.pos >= r.at {
-		return 0, r.err
+	if len(p) == 0 {
+		return 0, nil
 	}
-	n := copy(p, r.data[r.pos:r.at])
+	lim := len(p)
+	if r.chunk > 0 && r.chunk < lim {
+		lim = r.chunk
+	}
+	if r.fired {
+		if !r.once {
+			return 0, r.err
+		}
+		if r.pos >= len(r.data) {
+			return 0, io.EOF
+		}
+		n := copy(p[:lim], r.data[r.pos:])
+		r.pos += n
+		return n, nil
+	}
+	rest := r.at - r.pos
+	if rest <= r.with && rest <= lim {
+		// the failing call: the octets that are left in front of the failure, and the error
+		n := copy(p, r.data[r.pos:r.at])
+		r.pos += n
+		r.fired = true
+		return n, r.err
+	}
+	n := rest
+	if rest > r.with {
+		n = rest - r.with
+	}
+	n = copy(p[:min(n, lim)], r.data[r.pos:r.at])
 	r.pos += n
 	return n, nil
 }
@@ -94,8 +135,15 @@ func (r *faultReader) Read(p []byte) (int, error) {
 type faultByteReader struct{ faultReader }
 
 func (r *faultByteReader) ReadByte() (byte, error) {
-	if r.pos >= r.at {
+	if r.fired && !r.once {
 		return 0, r.err
+	}
+	if !r.fired && r.pos >= r.at {
+		r.fired = true
+		return 0, r.err
+	}
+	if r.pos >= len(r.data) {
+		return 0, io.EOF
 	}
 	b := r.data[r.pos]
 	r.pos++
@@ -118,11 +166,15 @@ type faultFS struct {
 	data  []byte
 	at    int
 	err   error
+	once  bool
+	chunk int
+	with  int
 }
 
 func (f *faultFS) Open(name string) (fs.File, error) {
 	if name == f.file {
-		return &faultFile{faultReader: faultReader{data: f.data, at: f.at, err: f.err}, name: name}, nil
+		// (every Open gets a reader of its own: a file that is included twice fails once each time)
+		return &faultFile{faultReader: faultReader{data: f.data, at: f.at, err: f.err, once: f.once, chunk: f.chunk, with: f.with}, name: name}, nil
 	}
 	return f.inner.Open(name)
 }
@@ -662,7 +714,8 @@ func runParserOnce(files map[string]string, cfg parserCfg, perRecord func(dns.RR
 		injected = faultErr(cfg.FaultKind)
 		if cfg.FaultFile != cfg.File {
 			d := []byte(files[cfg.FaultFile])
-			inner = &faultFS{inner: m, file: cfg.FaultFile, data: d, at: min(max(cfg.FaultAt, 0), len(d)), err: injected}
+			inner = &faultFS{inner: m, file: cfg.FaultFile, data: d, at: min(max(cfg.FaultAt, 0), len(d)), err: injected,
+				once: cfg.FaultOnce, chunk: max(cfg.FaultChunk, 0), with: max(cfg.FaultWith, 0)}
 		}
 	}
 	dp := &depthProbe{}
@@ -696,14 +749,20 @@ func runParserOnce(files map[string]string, cfg parserCfg, perRecord func(dns.RR
 		runtime.ReadMemStats(&ms1)
 		var rd io.Reader = strings.NewReader(top)
 		if cfg.FaultFile == cfg.File && cfg.FaultFile != "" {
-			fr := faultReader{data: []byte(top), at: min(max(cfg.FaultAt, 0), len(top)), err: injected}
+			fr := faultReader{data: []byte(top), at: min(max(cfg.FaultAt, 0), len(top)), err: injected,
+				once: cfg.FaultOnce, chunk: max(cfg.FaultChunk, 0), with: max(cfg.FaultWith, 0)}
 			if cfg.ByteReader {
 				rd = &faultByteReader{fr}
 			} else {
 				rd = &fr
 			}
 		}
-		zp := dns.NewZoneParser(probe(rd, dp), cfg.Origin, cfg.File)
+		rd = probe(rd, dp)
+		if cfg.Bufio > 0 && !cfg.ByteReader {
+			// the caller's own *bufio.Reader (the probe sits below it: the parser must see the type)
+			rd = bufio.NewReaderSize(rd, cfg.Bufio)
+		}
+		zp := dns.NewZoneParser(rd, cfg.Origin, cfg.File)
 		if cfg.HasDefTTL {
 			zp.SetDefaultTTL(cfg.DefTTL)
 		}
